@@ -51,6 +51,11 @@ type c18ECase struct {
 	Load     string `json:"load,omitempty"`
 	ZeroLead int    `json:"zero_lead,omitempty"`
 	Restart  bool   `json:"restart,omitempty"`
+	// Snap: SaveSnapshot before the Close of Restart (the index then comes back from the snapshot file, not from
+	// the log). Again: after the reopen that many of the first vectors are stored once more under new ids (a0,
+	// a1, ...): the same vector stored before and after the restart must read back the same, bit for bit.
+	Snap  bool `json:"snap,omitempty"`
+	Again int  `json:"again,omitempty"`
 }
 
 type c18EStats struct {
@@ -342,6 +347,11 @@ func c18RunECase(c c18ECase, st *c18EStats) (msg string) {
 		if m != "" {
 			return "before Close: " + m
 		}
+		if c.Snap {
+			if err := e.SaveSnapshot(); err != nil {
+				return "SaveSnapshot: " + err.Error()
+			}
+		}
 		if err := e.Close(); err != nil {
 			return "Close: " + err.Error()
 		}
@@ -362,6 +372,29 @@ func c18RunECase(c c18ECase, st *c18EStats) (msg string) {
 			for j := range a {
 				if math.Float32bits(a[j]) != math.Float32bits(b[j]) && !(a[j] == 0 && b[j] == 0) {
 					return fmt.Sprintf("%s/%s (%s, load %s, %d leading zero vectors): %s[%d] reads %.9g after Close/Open, %.9g before (whole vector %v -> %v)", c.Metric, c.Prec, c.Via, c.Load, c.ZeroLead, vid, j, b[j], a[j], a, b)
+				}
+			}
+		}
+		// the restored index keeps storing the way it did: the same vector, stored again now, reads back like its
+		// first copy
+		// (only when the first copy took the same path: in a "compress" case it was stored as float32 - unit length
+		// for cosine - and converted later, which a direct add into the converted index is not)
+		for i := 0; c.Via == "direct" && i < c.Again && i < len(c.Vecs); i++ {
+			aid := fmt.Sprintf("a%d", i)
+			if err := e.VAdd(idx, aid, append([]float32{}, c.Vecs[i]...), nil); err != nil {
+				return fmt.Sprintf("VAdd(%s) after Close/Open: %v", aid, err)
+			}
+			d, err := e.VGet(idx, aid)
+			if err != nil {
+				return fmt.Sprintf("VGet(%s) after Close/Open: %v", aid, err)
+			}
+			first := after[id(i)]
+			if len(d.Vector) != len(first) {
+				return fmt.Sprintf("%s/%s (%s): %s stored after Close/Open has %d components, its first copy %s has %d", c.Metric, c.Prec, c.Via, aid, len(d.Vector), id(i), len(first))
+			}
+			for j := range first {
+				if math.Float32bits(d.Vector[j]) != math.Float32bits(first[j]) && !(d.Vector[j] == 0 && first[j] == 0) {
+					return fmt.Sprintf("%s/%s (%s, snapshot before Close=%v): the vector %v stored again after Close/Open reads back %v, its first copy (stored before) reads %v", c.Metric, c.Prec, c.Via, c.Snap, c.Vecs[i], d.Vector, first)
 				}
 			}
 		}
@@ -434,6 +467,10 @@ func c18GenECase() *rapid.Generator[c18ECase] {
 			c.ZeroLead = rapid.IntRange(1, 2).Draw(rt, "nzero")
 		}
 		c.Restart = rapid.IntRange(0, 2).Draw(rt, "restart") == 0
+		if c.Restart {
+			c.Snap = rapid.Bool().Draw(rt, "snap")
+			c.Again = rapid.IntRange(0, 3).Draw(rt, "again")
+		}
 		nq := rapid.IntRange(1, 4).Draw(rt, "nq")
 		for i := 0; i < nq; i++ {
 			if rapid.Bool().Draw(rt, "qstored") {
@@ -491,6 +528,12 @@ func TestVerif_C18_engine(t *testing.T) {
 		}
 		if c.Restart {
 			labels = append(labels, "read-back-compared-across-restart")
+			if c.Snap {
+				labels = append(labels, "restart-from-a-snapshot")
+			}
+			if c.Again > 0 && c.Via == "direct" {
+				labels = append(labels, "same-vector-stored-again-after-restart")
+			}
 		}
 		if st.maxRatio > maxRatio[key] {
 			maxRatio[key] = st.maxRatio
